@@ -160,6 +160,9 @@ func (e *Engine) contractKey(fc *FuncContract) string {
 			}
 			return "(" + rt + ")." + fc.Name
 		}
+		if fc.PkgPath == "" {
+			return "(" + rt + ")." + fc.Name
+		}
 		return "(" + fc.PkgPath + "." + rt + ")." + fc.Name
 	}
 	if fc.Qual != "" {
